@@ -61,6 +61,10 @@ func Transpose(t Tensor, axes ...int) (retVal Tensor, err error) {
 // (*Dense can only be concatenated with a bunch of *Dense, CSCs can only be concatenated with a bunch of CSC, etc)
 func Concat(axis int, t Tensor, others ...Tensor) (retVal Tensor, err error) {
 	if len(others) == 0 {
+		// nothing to concatenate with, but the axis still has to be a valid one
+		if _, err = t.Shape().Concat(axis); err != nil {
+			return nil, err
+		}
 		return t, nil
 	}
 	switch T := t.(type) {
@@ -104,10 +108,6 @@ func Copy(dst, src Tensor) error {
 // Stack stacks a list of other Tensors. At the moment the operation only supports Tensors of the same type.
 // (*Dense can only be stacked with *Dense... etc)
 func Stack(axis int, t Tensor, others ...Tensor) (retVal Tensor, err error) {
-	if len(others) == 0 {
-		return t, nil
-	}
-
 	switch T := t.(type) {
 	case DenseTensor:
 		var dts []DenseTensor
